@@ -13,7 +13,7 @@ from .vc import Contract, FunctionVC, Registry, solve_obligation
 
 VERIF = os.path.dirname(os.path.dirname(os.path.abspath(__file__)))
 
-CONTRACT_MODULES = ['contracts.tokenize', 'contracts.tal_repeat', 'contracts.utils_bytes']
+CONTRACT_MODULES = ['contracts.tokenize', 'contracts.tal_repeat', 'contracts.utils_bytes', 'contracts.k2_quote']
 
 
 def build_registry(modules=None):
